@@ -491,13 +491,18 @@ pub fn expand_glob(tokens: &mut types::Tokens) {
     }
 
     for (i, result) in buff.iter().rev() {
+        let written = tokens[*i].1.clone();
         tokens.remove(*i);
         for (j, token) in result.iter().enumerate() {
-            // a file name is data for the passes that follow, whatever it
-            // looks like
-            let sep = if !substitution_spans(token).is_empty() {
+            // a matched file name is data for the passes that follow,
+            // whatever it looks like (a pattern that matched nothing is
+            // still the word as written, with its own substitutions)
+            let matched = *token != written;
+            let sep = if matched && !substitution_spans(token).is_empty() {
                 "'"
-            } else if token.contains(' ') || has_operator_chars(token) || has_brace_expression(token) {
+            } else if token.contains(' ') || has_operator_chars(token)
+                || (matched && has_brace_expression(token))
+            {
                 "\""
             } else {
                 ""
